@@ -68,7 +68,56 @@ def check_eviction(tier):
     return 1 if rejects else 0
 
 
+def sector_cfg(s, nobj=3, maxsize=5, mut="none", chunk=3, emit=False, view=True):
+    c = 'SPECIFICATION Spec\n%sCONSTANTS\n S = %d\n NObj = %d\n MaxSize = %d\n MaxChunk = %d\n Mut = "%s"\nCHECK_DEADLOCK FALSE\n' % (
+        "VIEW View\n" if view else "", s, nobj, maxsize, chunk, mut)
+    return c + ("CONSTRAINT EmitScript\n" if emit else "INVARIANTS Durable\n")
+
+
+def check_sector(tier):
+    t0 = time.time()
+    sd = vlib.seed()
+    quick = tier == "quick"
+    binary = vlib.go_build_test("store")
+    work = vlib.scratch("sector")
+    states = trans = 0
+    models = []
+    for s, kw in ([(2, {}), (3, {})] if quick else [(2, {}), (3, {}), (4, dict(maxsize=6)), (2, dict(nobj=4, maxsize=3)), (3, dict(nobj=4, maxsize=4))]):
+        r = vlib.run_tlc("SectorWriter", sector_cfg(s, **kw), timeout=3400)
+        vlib.require_model_ok(r, "SectorWriter S=%d %s" % (s, kw))
+        states += r.distinct
+        trans += r.generated
+        models.append({"sector": s, "bounds": kw, "distinct_states": r.distinct})
+    rm = vlib.run_tlc("SectorWriter", sector_cfg(3, mut="reuse_shared_sector"), timeout=900)
+    if rm.violated != "Durable":
+        raise Broken("SectorWriter mutant not killed")
+    scripts = []
+    for s in (2, 3, 4):
+        rs = vlib.run_tlc("SectorWriter", sector_cfg(s, maxsize=6, emit=True, view=False), mode="simulate", sim_num=300 if quick else 6000, sim_depth=40,
+                          sim_seed=sd * 37 + s, workers=1, marker_sink=lambda m, o: scripts.append(o), timeout=3000)
+        if not rs.ok:
+            raise Broken("SectorWriter simulation failed: %s %s" % (rs.violated, rs.error))
+    sp = os.path.join(work, "scripts.ndjson")
+    vlib.write_ndjson(sp, scripts)
+    rc, out = vlib.run_harness(binary, "TestSector", {"STORE_OUT": work, "STORE_SCRIPTS": sp}, timeout=3000)
+    if rc != 0:
+        raise Broken("sector harness failed:\n" + out[-3000:])
+    n_events, rejects, vstates = validate_obs("SectorContractTrace", os.path.join(work, "sector.ndjson"))
+    for i, rj in enumerate(rejects):
+        path = vlib.save_replay("extra_sector", "s%d_%d" % (sd, i), {"observation.json": rj["event"]})
+        print("VIOLATION property=EXTRA-sector replay=%s" % path)
+        log("  rejected observation: %s" % json.dumps({k: v for k, v in rj["event"].items() if k != "snaps"})[:500])
+    cov = {"states": states, "transitions": trans, "traces_validated_against_impl": n_events, "models": models, "scripts": len(scripts),
+           "mutants_killed": {"reuse_shared_sector": rm.violated}, "trace_validator_states": vstates, "samples": scripts[:1]}
+    vlib.write_evidence("extra_sector", tier, "model_checking", cov, time.time() - t0, len(rejects),
+                        ["not one of the listed properties by itself: the sector sharing that C01 depends on",
+                         "one block on a simulated device; objects of 1-6 bytes, sectors of 2-4 bytes, chunks of 1-3 bytes; cooperative schedule taken from the model's behaviour (the validating buffer layer delays a writer's last chunk until its end-of-stream probe)"])
+    return 1 if rejects else 0
+
+
 def check(name, tier):
+    if name == "sector":
+        return check_sector(tier)
     if name == "readcanary":
         return check_readcanary(tier)
     if name == "eviction":
